@@ -321,7 +321,7 @@ func knownFindings(st *Stats) {
 		desc["scenario"] = k.scenario
 		delete(desc, "entry_dynamic_exports") // the recorded scenarios compare everything
 		ep := k.g.mods[k.g.entry].path
-		outs := runJobs([]glueJob{{k.g.render(), ep, ep, k.g.isESM(k.g.entry), []buildCfg{k.cfg}, desc, "known"}})
+		outs := runJobs([]glueJob{{k.g, k.g.render(), ep, ep, k.g.isESM(k.g.entry), []buildCfg{k.cfg}, desc, "known"}})
 		for _, o := range outs[0] {
 			if o.kind == "fail" {
 				st.Note("known:"+k.scenario, "1", true)
